@@ -5,6 +5,7 @@ open RoutinatorModel.Drv
 def dispatch (comp arg : String) : String :=
   match comp with
   | "c30" => runC30 arg
+  | "c31" => runC31 arg
   | _ => "bad-component"
 
 def main : IO Unit := mainWith dispatch
